@@ -2,6 +2,7 @@ import Resolvo.Abs.Fail
 import Resolvo.Enc.ReferenceProofs
 import Resolvo.MDet.EncSound
 import Resolvo.MDet.Tracker
+import Resolvo.MDet.Undo
 /-!
 # C02 — Unsolvable is reported only when no solution exists, and vice versa
 
@@ -57,6 +58,17 @@ theorem decision_tracker_consistent (U : Universe) (P : Problem) (fuel : Nat) (s
     ∀ v b, MDet.valueOf (MDet.solveRun U P fuel s0).2 v = some b ↔
       ∃ d ∈ (MDet.solveRun U P fuel s0).2.stack, d.var = v ∧ d.val = b :=
   ⟨MDet.solveRun_dtinv U P fuel s0, fun v b => MDet.valueOf_iff (MDet.solveRun_dtinv U P fuel s0) v b⟩
+
+/-- **`try_add_decision` never overwrites an assignment** (exact model of `decision_tracker.rs`, every state): it cannot
+    fail; on an unassigned variable it pushes exactly that decision at the given level and answers `some true`; on an
+    assigned one it leaves the stack and the assignment map untouched and answers `some false` (same value) or `none`
+    (opposite value — the conflict `propagate` acts on). -/
+theorem try_add_decision_post (v : Nat) (val : Bool) (reason level : Nat) (s : MDet.S) :
+    ∃ r s', MDet.runM (MDet.tryAdd v val reason level) s = (.ok r, s') ∧
+      (match MDet.valueOf s v with
+       | none => r = some true ∧ s'.stack = ⟨v, val, reason⟩ :: s.stack ∧ MDet.valueOf s' v = some val ∧ MDet.levelOf s' v = level
+       | some b => s'.stack = s.stack ∧ s'.amap = s.amap ∧ r = (if b == val then some false else none)) :=
+  MDet.tryAdd_post v val reason level s
 
 /-- (a) certified Unsolvable -/
 theorem unsat_certified (U : Universe) (P : Problem) (history : List Event) (st : St)
